@@ -631,6 +631,85 @@ pub fn c07_literal() {
         check!(got == Ok(Value::List(Arc::new((0..n as i64).map(|j| Value::Int(100 + j)).collect()))), "list literal holds the element values in order");
     }
 }
+/// C17 structure half: sequences, tuples, maps (with repeated keys), structs and the data-carrying variants
+/// through `to_value`, with an optional child whose own `Serialize` fails.
+pub fn c17_compound() {
+    use cel_interpreter::objects::{Key, Map};
+    use serde::ser::{Error as _, SerializeMap as _};
+    use serde::Serialize;
+    struct Elem(i64, bool);
+    impl Serialize for Elem {
+        fn serialize<S: serde::Serializer>(&self, s: S) -> Result<S::Ok, S::Error> {
+            if self.1 {
+                Err(S::Error::custom("child fails"))
+            } else {
+                s.serialize_i64(self.0)
+            }
+        }
+    }
+    struct Pairs(Vec<(&'static str, Elem)>);
+    impl Serialize for Pairs {
+        fn serialize<S: serde::Serializer>(&self, s: S) -> Result<S::Ok, S::Error> {
+            let mut m = s.serialize_map(Some(self.0.len()))?;
+            for (k, v) in self.0.iter() {
+                m.serialize_key(k)?;
+                m.serialize_value(v)?;
+            }
+            m.end()
+        }
+    }
+    #[derive(Serialize)]
+    struct TS(Elem, Elem);
+    #[derive(Serialize)]
+    struct St {
+        f0: Elem,
+        f1: Elem,
+    }
+    #[derive(Serialize)]
+    enum En {
+        T(Elem, Elem),
+        S { f0: Elem, f1: Elem },
+    }
+    let (shape, cfg, bad): (u8, u8, u8) = (any(), any(), any());
+    crate::sym::assume(shape <= 6);
+    let el = |j: u8| Elem(10 + j as i64, j == bad);
+    let list = |n: u8| Value::List(Arc::new((0..n).map(|j| Value::Int(10 + j as i64)).collect()));
+    let smap = |pairs: Vec<(&str, Value)>| {
+        let mut m = std::collections::HashMap::new();
+        for (k, v) in pairs {
+            m.insert(Key::String(Arc::new(k.to_string())), v);
+        }
+        Value::Map(Map { map: Arc::new(m) })
+    };
+    let (got, want, children): (Result<Value, _>, Value, u8) = match shape {
+        0 => {
+            crate::sym::assume(cfg <= 3);
+            (cel_interpreter::to_value((0..cfg).map(el).collect::<Vec<_>>()), list(cfg), cfg)
+        }
+        1 => (cel_interpreter::to_value((el(0), el(1))), list(2), 2),
+        2 => (cel_interpreter::to_value(TS(el(0), el(1))), list(2), 2),
+        3 => (cel_interpreter::to_value(En::T(el(0), el(1))), smap(vec![("T", list(2))]), 2),
+        4 => {
+            let patterns: [&[&str]; 7] = [&[], &["a"], &["a", "b"], &["a", "a"], &["a", "b", "a"], &["a", "a", "a"], &["a", "b", "c"]];
+            crate::sym::assume((cfg as usize) < patterns.len());
+            let keys = patterns[cfg as usize];
+            let pairs: Vec<(&'static str, Elem)> = keys.iter().enumerate().map(|(j, k)| (*k, el(j as u8))).collect();
+            let mut want = Vec::new();
+            for (j, k) in keys.iter().enumerate() {
+                want.retain(|(kk, _): &(&str, Value)| kk != k);
+                want.push((*k, Value::Int(10 + j as i64)));
+            }
+            (cel_interpreter::to_value(Pairs(pairs)), smap(want), keys.len() as u8)
+        }
+        5 => (cel_interpreter::to_value(St { f0: el(0), f1: el(1) }), smap(vec![("f0", Value::Int(10)), ("f1", Value::Int(11))]), 2),
+        _ => (cel_interpreter::to_value(En::S { f0: el(0), f1: el(1) }), smap(vec![("S", smap(vec![("f0", Value::Int(10)), ("f1", Value::Int(11))]))]), 2),
+    };
+    if bad < children {
+        check!(got.is_err(), "a child that fails to serialise makes the conversion fail");
+    } else {
+        check!(matches!(&got, Ok(v) if *v == want), "the compound converts to the value of the same shape");
+    }
+}
 /// C18 structure half: lists, maps (including keys rendering to the same text) and bytes through Value::json.
 pub fn c18_structure() {
     use cel_interpreter::objects::{Key, Map};
@@ -1285,6 +1364,7 @@ crate::replay_only! {
     #[kani::unwind(2)] c11_unsupported_nodes: "off", "same body", "same";
     #[kani::unwind(2)] c10_unsupported_nodes: "off", "same body", "same";
     #[kani::unwind(2)] c19_unsupported_nodes: "off", "same body", "same";
+    #[kani::unwind(2)] c17_compound: "off", "sequences, tuples, maps with repeated keys, structs and data-carrying variants through to_value, optional failing child", "seven shapes, seven key patterns";
     #[kani::unwind(2)] c18_structure: "off", "lists, maps and bytes through Value::json against the documented document shape", "lists of 0-3, thirteen key sets, byte strings of 0-6";
     #[kani::unwind(2)] c04_prefix: "off", "runs of 1-9 prefix ! / - over a literal or a variable through Program::compile + execute", "k in 1..9";
     #[kani::unwind(2)] c04_binary: "off", "x OP y for the twelve binary operator texts and ?: with operands of three shapes: references() and value", "13 operators x 9 shape pairs";
